@@ -278,6 +278,7 @@ package stackage
 //@ ensures[C09:Push.ro] r != nil && bit(o, 0x0080) ==> hdr(r) == old(hdr(r))
 //@ ensures[C01,C03:Push.wf] r != nil ==> wf(r) && cfgOf(r) == old(cfgOf(r))
 //@ ensures[:Push.ret] result == r
+//@ ensures[:Push.own] r != nil ==> arr(hdr(r)) == old(arr(hdr(r))) || fresh(arr(hdr(r)))
 //@ ensures[:Push.calls] G_calls_len >= c0 && (pp == nil ==> G_calls_len == c0)
 //@ ensures[C14,C03:Push.pol.outcome] go && pp != nil ==> (exists e :: 0 <= e && e <= n && (forall j :: 0 <= j && j < e && pcalled(cp, len0, j) ==> pres(M0, y, pp, cp, len0, c0, j) == nil) && len(hdr(r)) == alen(cp, len0, e) && (e == n ==> G_calls_len == acalls(cp, len0, c0, n) && F_nodeConfig_err[cf] == old(F_nodeConfig_err[cf])) && (e < n ==> pcalled(cp, len0, e) && pres(M0, y, pp, cp, len0, c0, e) != nil && G_calls_len == acalls(cp, len0, c0, e) + 1 && F_nodeConfig_err[cf] == pres(M0, y, pp, cp, len0, c0, e)) && (forall j :: 0 <= j && j < e && pcalled(cp, len0, j) ==> slot(r, alen(cp, len0, j)) == old(y[j])) && (forall j :: 0 <= j && j < n && (j < e || j == e) && pcalled(cp, len0, j) ==> G_calls_fn[acalls(cp, len0, c0, j)] == pp && G_calls_arg[acalls(cp, len0, c0, j)] == old(y[j])))
 //@ ensures[C14:Push.pol.log.kept] go && pp != nil ==> (forall k :: 0 <= k && k < c0 ==> G_calls_fn[k] == old(G_calls_fn[k]) && G_calls_arg[k] == old(G_calls_arg[k]))
@@ -1231,9 +1232,24 @@ package stackage
 //@ ensures[C14:Cond.String.policy] r != nil && verdict == nil && rp != nil ==> exists b: Val :: s == dyn_Str_0(rp, b, ite(vp != nil, c0 + 1, c0))
 //@ modifies fresh, G_calls_len, G_calls_fn, G_calls_arg
 
+//@ func deenvelopeSingleStack
+//@ tags C16
+//@ safety C16
+//@ requires okslice(in, alloc)
+//@ ensures[C16:deenvelope] okslice(result, alloc) && (len(in) >= 1 ==> len(result) >= 0)
+//@ modifies nothing
+//@ loop 1 invariant okslice(in, alloc)
+
 //@ func marshalDefault
-//@ note decoding is decided under C04/C16; callers outside those learn nothing from this call
-//@ noframe
+//@ tags C16,C09,C11
+//@ safety C16
+//@ requires okslice(in, alloc)
+//@ ensures[C16:md.result] (x == nil || (wf(x) && fresh(x))) && (c == nil || (cwf(c) && fresh(c)))
+//@ ensures[C16:md.empty] len(in) == 0 ==> err != nil && x == nil && c == nil
+//@ modifies fresh, G_calls_len, G_calls_fn, G_calls_arg
+//@ loop 1 invariant x != nil && wf(x) && fresh(x) && fresh(arr(hdr(x))) && 0 <= i
+//@ loop 1 invariant forall a :: 0 <= a && a < old(alloc) ==> Mem_Val[a] == old(Mem_Val[a])
+//@ loop 1 invariant forall a :: 0 <= a && a < old(alloc) ==> Cell_stack[a] == old(Cell_stack[a])
 
 // ---------------------------------------------------------------------
 // C15: Transfer copies everything or reports failure, and never touches the source
